@@ -80,7 +80,7 @@ def _case(draw):
     for _ in range(draw(st.integers(0, 3))):
         nd = draw(st.sampled_from([0, 1, 1, 2, 2, 3]))
         deps = [draw(st.sampled_from(used)) for _ in range(nd)]
-        case["ode_mod"].append({"target": draw(st.sampled_from(used)), "factor": draw(st.sampled_from(ODE_FACTORS)), "deps": deps})
+        case["ode_mod"].append({"target": draw(st.sampled_from(used)), "factor": draw(st.sampled_from(ODE_FACTORS)), "deps": deps, "ealt": draw(st.integers(0, 2)) == 0})
     case["config_route"] = draw(st.integers(0, 2)) == 0
     # the other way into the configuration file: `naunet init --rate-modifier=... --ode-modifier=...` (one option per term)
     case["init_route"] = draw(st.integers(0, 3)) == 0
